@@ -274,6 +274,16 @@ def scripted_bm(case, batch=1, noise=None, pad=None):
     return ScriptedBrownian(table, (len(rows), m), levy=levy_for(case["method"])), grid
 
 
+def pad_noise(nz, value=(3, 2)):
+    """one more (irrelevant) Brownian channel for the augmented diagonal-noise SDE of logqp"""
+    out = []
+    for st in nz:
+        m = len(st["w"])
+        a = [row + [[0, 1]] for row in st["a"]] + [[[0, 1]] * (m + 1)]
+        out.append(dict(w=st["w"] + [list(value)], u=st["u"] + [list(value)], a=a))
+    return out
+
+
 def options_for(case):
     return {"grad_free": True} if case.get("gradfree") else {}
 
@@ -313,7 +323,9 @@ def replay_file(path, logqp=False):
     print(json.dumps(dict(property=rp.get("property"), key=rp.get("key"), message=rp.get("message")), indent=1))
     case = (rp.get("replay") or {}).get("case")
     if case:
-        out, _, _, _ = real_solve(case, logqp=logqp and "h" in case["sde"])
+        lq = logqp and "h" in case["sde"]
+        noise = [pad_noise(case["nz"])] if lq and case["sde"]["nt"] == "diagonal" else None
+        out, _, _, _ = real_solve(case, logqp=lq, noise=noise)
         if isinstance(out, tuple):
             print("ys      =", out[0].detach().squeeze(1).tolist())
             print("logqp   =", out[1].detach().squeeze(1).tolist())
